@@ -26,7 +26,7 @@ pub(super) fn load_workbook<R: Read + std::io::Seek>(
         .filter(|n| n.has_tag_name("sheet"))
         .collect();
     for sheet in sheet_nodes {
-        let name = get_attribute(&sheet, "name")?.to_string();
+        let name = decode_xlsx_escapes(get_attribute(&sheet, "name")?);
         let sheet_id = get_attribute(&sheet, "sheetId")?.to_string();
         let sheet_id = sheet_id.parse::<u32>()?;
         let id = get_attribute(
